@@ -4,6 +4,7 @@ verify_contract(C)  runs the symbolic executor over every path of the function
 (or slice) C is attached to, for every `case` (assignment of value kinds to the
 parameters), and returns the list of obligations with verdicts.
 """
+import os
 import time
 import traceback
 import z3
@@ -202,6 +203,8 @@ class PathCtx:
         dt = time.time() - t0
         ob.time += dt
         ob.backend[backend] = ob.backend.get(backend, 0) + 1
+        if verdict != "proved" and os.environ.get("PYVC_DEBUG"):
+            print("DEBUG unproved %s on path %s (line %s) %.1fs" % (ob.oid, "".join("T" if d else "F" for d in self.decisions), self.cur_line, dt))
         if verdict != "proved":
             if ob.verdict == "proved" or (ob.verdict == "unknown" and verdict == "refuted"):
                 ob.verdict = verdict
